@@ -21,12 +21,20 @@ theorem controlled_table_sound_partial : ∀ r ∈ ctlRows, r.1 ∉ ctlKnownDefe
 
 example : ∃ r ∈ ctlRows, r.1 ∉ ctlKnownDefects := ⟨("CNOT", ctl_CNOT), by simp [ctlRows], by decide⟩
 
-/-- witnesses: on the unchanged tree these rows are NOT identities (replayed on the real code every run) -/
-theorem controlled_H_defect : ctl_H.check = false := ctl_H_known_defect
-theorem controlled_SqrtX_defect : ctl_SqrtX.check = false := ctl_SqrtX_known_defect
-theorem controlled_SqrtXdag_defect : ctl_SqrtXdag.check = false := ctl_SqrtXdag_known_defect
-theorem controlled_SqrtY_defect : ctl_SqrtY.check = false := ctl_SqrtY_known_defect
-theorem controlled_SqrtYdag_defect : ctl_SqrtYdag.check = false := ctl_SqrtYdag_known_defect
+/-- witnesses: the rows AS THEY ARE ON THE PINNED TREE (literal copies, so that these theorems do not depend on the
+    working tree) are NOT identities; the real-code oracle replays them every run and reports them as KNOWN-FINDING.
+    The rows translated from the working tree are decided either way by the kernel (`ctl_*_known_row_decided`), so a
+    repair of the defect upstream does not turn into an alarm. -/
+def pinned_ctl_H : CTemplate := ⟨2, G .H [] [0] [], [G .RY [] [1] [⟨[], 1⟩], G .CZ [0] [1] [], G .RY [] [1] [⟨[], -1⟩]]⟩
+def pinned_ctl_SqrtX : CTemplate := ⟨2, G .SqrtX [] [0] [], [G .H [] [1] [], G .CNOT [0] [1] [], G .RZ [] [1] [⟨[], -1⟩], G .CNOT [0] [1] [], G .RZ [] [1] [⟨[], 1⟩], G .H [] [1] []]⟩
+def pinned_ctl_SqrtXdag : CTemplate := ⟨2, G .SqrtXdag [] [0] [], [G .H [] [1] [], G .CNOT [0] [1] [], G .RZ [] [1] [⟨[], 1⟩], G .CNOT [0] [1] [], G .RZ [] [1] [⟨[], -1⟩], G .H [] [1] []]⟩
+def pinned_ctl_SqrtY : CTemplate := ⟨2, G .SqrtY [] [0] [], [G .CNOT [0] [1] [], G .RY [] [1] [⟨[], -1⟩], G .CNOT [0] [1] [], G .RY [] [1] [⟨[], 1⟩]]⟩
+def pinned_ctl_SqrtYdag : CTemplate := ⟨2, G .SqrtYdag [] [0] [], [G .CNOT [0] [1] [], G .RY [] [1] [⟨[], 1⟩], G .CNOT [0] [1] [], G .RY [] [1] [⟨[], -1⟩]]⟩
+theorem controlled_H_defect : pinned_ctl_H.check = false := by decide +kernel
+theorem controlled_SqrtX_defect : pinned_ctl_SqrtX.check = false := by decide +kernel
+theorem controlled_SqrtXdag_defect : pinned_ctl_SqrtXdag.check = false := by decide +kernel
+theorem controlled_SqrtY_defect : pinned_ctl_SqrtY.check = false := by decide +kernel
+theorem controlled_SqrtYdag_defect : pinned_ctl_SqrtYdag.check = false := by decide +kernel
 
 /-- FULL STATEMENT: the sub built for `Inverse(U)` carries the opposite tracked phase, so that `Controlled(Inverse U)`
     gets the right relative phase.  PARTIAL: `inverse_sub_resolver` never calls `add_phase`; the statement holds
